@@ -133,6 +133,9 @@ type c10Result struct {
 	tail       []string
 	nontrivial bool
 	zeroSpace  bool // server adopted N=255 (sequence space 0)
+	// foreignSynack: the client sent SYNACK right after a SYN reply whose N
+	// was not its own.
+	foreignSynack bool
 	// staleSynLoop: the run did not converge and every data-phase connection
 	// that died after the faults had ceased was killed by a handshake packet
 	// (SYN/SYNACK) received in the data phase, or by the FIN of a peer that
@@ -533,10 +536,31 @@ func runC10(t *testing.T, c *hsCase) (res c10Result) {
 	}
 	faulted := false
 	if tr != nil {
+		lastSynToClient, foreign := -1, false
 		for _, e := range tr.Snapshot() {
 			if e.Ev == "send" && e.Dec != "" && (e.Type == "SYN" || e.Type == "SYNACK") {
 				faulted = true
 			}
+			// The client confirms (SYNACK) only a SYN reply that carries the
+			// window it proposed: the SYNACK carries no N, so confirming any
+			// other reply leaves the two ends with different windows.
+			if e.Dir == "s2c" && e.Ev == "recv" && e.Type == "SYN" {
+				lastSynToClient = e.Seq
+				if e.Seq != c.N {
+					foreign = true
+				}
+			}
+			if e.Dir == "c2s" && e.Ev == "send" && e.Type == "SYNACK" && lastSynToClient != c.N && !res.foreignSynack {
+				res.foreignSynack = true
+				msg := fmt.Sprintf("the client (N=%d) confirmed with SYNACK at t=%.3fms a SYN reply that carried N=%d: the server of that reply uses a window the client did not propose",
+					c.N, float64(e.T)/1000, lastSynToClient)
+				// this outranks a recorded finding that happens to match the
+				// consequences
+				res.violation, res.staleN, res.crossAttempt, res.staleSynLoop, res.fullWindow = msg, false, false, false, false
+			}
+		}
+		if foreign {
+			res.labels = append(res.labels, "syn_reply_with_other_n_reached_client")
 		}
 		if res.violation != "" {
 			res.tail = tr.Tail(400)
